@@ -98,7 +98,12 @@ fn run_case(cx: &CaseCtx, rep: &mut Report) {
 	let mixed = rng.bool();
 	let enc = imvt::EncOpts { dup_keys: rng.chance(0.4), dup_vals: rng.chance(0.4), unused_entries: rng.chance(0.3), foreign_field_order: rng.chance(0.5) };
 	let go = imvt::GenOpts { extreme_values: rng.chance(0.5), wide_tables: if cx.tier.is_tiny() { 0.0 } else { 0.03 }, ..Default::default() };
-	let sets = gen_vector_sets(&mut rng, n, &go, mixed, &enc);
+	let mut sets = gen_vector_sets(&mut rng, n, &go, mixed, &enc);
+	if cx.tier.is_tiny() {
+		for s in sets.iter_mut() {
+			s.truncate(3);
+		}
+	}
 	rep.count("tiles_with_tables_beyond_16384_entries", sets.iter().map(|s| s.layers.values().filter(|l| imvt::has_wide_table(l)).count() as u64).sum());
 	if sets.iter().map(|s| s.comp).collect::<BTreeSet<Comp>>().len() > 1 {
 		rep.count("cases_mixed_compression", 1);
